@@ -317,10 +317,39 @@ pub fn check_c01(cx: &Ctx, rep: &mut Report, expect_converge: bool) {
                 "merge"
             } else if path.iter().any(|a| matches!(a, Action::Deliver(i) if w.pool[*i].kind == EvKind::Commit && w.pool[*i].author == g.member)) {
                 "echo"
+            } else if w.initial_node.get(&g.member).map(|p| p.is_empty()).unwrap_or(true) {
+                // the member started at the fork with its commit pending and neither merged it nor saw its echo
+                "neither-merge-nor-echo"
             } else {
                 "start-state"
             };
             diag.push_str(&format!(",own-commit-applied-by={by}"));
+        }
+        // a member back on the winning branch whose next commit is blocked by a Failed record: was that commit refused
+        // while the member was on a losing branch (a rollback names such events for another try), or on the spine (D2)
+        if diag.contains("off-spine-depth=0,needs=commit.") && diag.contains(":dedup=failed:") {
+            if let Some(q) = q {
+                let leaf_path = w.spine.last().unwrap().clone();
+                let at = g.states[q].g.as_ref().and_then(|x| x.mls.as_ref()).and_then(|c| w.nodes.values().find(|n| n.core.authenticator == c.authenticator && n.core.epoch == c.epoch)).map(|n| n.path.len());
+                let needed = at.and_then(|k| w.pool.iter().position(|p| p.kind == EvKind::Commit && p.node.as_slice() == &leaf_path[..k.min(leaf_path.len())] && p.child.as_ref().map(|c| c.len() == k + 1 && leaf_path.starts_with(c)).unwrap_or(false)));
+                if let Some(i) = needed {
+                    let path = g.path_to(s);
+                    let mut cur = 0usize;
+                    for a in &path {
+                        if *a == Action::Deliver(i) {
+                            let on_spine_then = g.states[cur].g.as_ref().and_then(|x| x.mls.as_ref()).and_then(|c| w.nodes.values().find(|n| n.core.authenticator == c.authenticator && n.core.epoch == c.epoch)).map(|n| on_spine(w, &n.path)).unwrap_or(true);
+                            if !on_spine_then {
+                                diag.push_str(",refused-while=on-a-losing-branch");
+                            }
+                            break;
+                        }
+                        match g.follow(cur, *a) {
+                            Some(e) => cur = e.target,
+                            None => break,
+                        }
+                    }
+                }
+            }
         }
         let sig = format!("C01|{class}|{:?}|{}", g.regime, diag);
         if !seen_sig.insert(sig.clone()) {
@@ -328,7 +357,7 @@ pub fn check_c01(cx: &Ctx, rep: &mut Report, expect_converge: bool) {
             continue;
         }
         let path = g.path_to(s);
-        let diag_core = diag.split(",own-commit-applied-by=").next().unwrap_or("").to_string();
+        let diag_core = diag.split(",own-commit-applied-by=").next().unwrap_or("").split(",refused-while=").next().unwrap_or("").to_string();
         let pred = |e: usize| verdict[e] == Some(class) && settle(cx, e).map(|q| diagnose(cx, q)).as_deref() == Some(diag_core.as_str());
         let min = g.minimise(&path, &pred);
         let end = g.run(&min).unwrap_or(s);
@@ -740,13 +769,16 @@ pub fn check_c02(cx: &Ctx, rep: &mut Report) {
     let verdict = |s: usize| -> Option<(String, usize)> {
         let q = settle(cx, s)?;
         let st = &g.states[q];
-        if classify(w, member, st) != Conv::Ok {
-            return None; // C01's business
+        // where there is a fork, a member that does not reach the reference state is C01's business (its messages
+        // follow from that); in a history with one branch only there is nothing to select and the messages are judged
+        let single_branch = w.nodes.keys().all(|p| on_spine(w, p));
+        if classify(w, member, st) != Conv::Ok && !single_branch {
+            return None;
         }
         let still_member = w.leaf().members.iter().any(|m| m == member);
         for (i, p) in w.pool.iter().enumerate() {
-            if p.kind != EvKind::Msg {
-                continue;
+            if p.kind != EvKind::Msg || p.rumor.is_none() {
+                continue; // (a message event the harness forged has no rumor its sender legitimately created)
             }
             let spine_msg = on_spine(w, &p.node);
             let (copies, intact, state) = msg_status(w, st, i);
@@ -849,10 +881,22 @@ pub fn check_c03_roster(cx: &Ctx, rep: &mut Report) {
                 "merge"
             } else if path.iter().any(|a| matches!(a, Action::Deliver(i) if w.pool[*i].kind == EvKind::Commit && w.pool[*i].author == g.member)) {
                 "echo"
+            } else if w.initial_node.get(&g.member).map(|p| p.is_empty()).unwrap_or(true) {
+                // the member started at the fork with its commit pending and neither merged it nor saw its echo
+                "neither-merge-nor-echo"
             } else {
                 "start-state"
             };
             diag.push_str(&format!(",own-commit-applied-by={by}"));
+        }
+        {
+            // histories with a restart: which of the competitors was offered first, and was the restart after it
+            let path = g.path_to(s);
+            if let Some(r) = path.iter().rposition(|a| *a == Action::Restart) {
+                let first = path.iter().position(|a| matches!(a, Action::Deliver(i) if w.pool[*i].kind == EvKind::Commit && w.pool[*i].node.is_empty()));
+                let which = first.map(|f| match path[f] { Action::Deliver(i) => event_class(w, &g.member, i).rsplit('.').next().unwrap_or("").to_string(), _ => String::new() }).unwrap_or_else(|| "none".into());
+                diag.push_str(&format!(",first-offered={which},restart-after-it={}", first.map(|f| r > f).unwrap_or(false)));
+            }
         }
         let sig = format!("C03|removed-user-still-in-roster-after-settling|{:?}|{}", g.regime, diag);
         if !seen.insert(sig.clone()) {
